@@ -790,6 +790,31 @@ func (c *Ctx) c02Read() {
 					case *ssa.Call:
 						if eng.CalleeName(x.Common()) == "io.Copy" && len(x.Call.Args) == 2 {
 							copies = append(copies, p.InstrPos(x))
+						} else if eng.CalleeName(x.Common()) == "io.ReadAll" {
+							// buffered instead of streamed: the bytes read must reach the response
+							// writer's Write unchanged
+							data := extractOf(x, 0)
+							nW := 0
+							if data != nil && data.Referrers() != nil {
+								for _, dr := range *data.Referrers() {
+									switch y := dr.(type) {
+									case *ssa.Call:
+										if y.Call.IsInvoke() && y.Call.Method.Name() == "Write" && len(y.Call.Args) == 1 && y.Call.Args[0] == data {
+											nW++
+											copies = append(copies, p.InstrPos(y))
+										} else if eng.CalleeName(y.Common()) == "builtin.len" {
+										} else {
+											other = append(other, "the bytes read from the source pass "+eng.CalleeName(y.Common())+" at "+p.InstrPos(y)+" before they are written")
+										}
+									case *ssa.DebugRef:
+									default:
+										other = append(other, fmt.Sprintf("the bytes read from the source are used by %T at %s", dr, p.InstrPos(dr)))
+									}
+								}
+							}
+							if nW == 0 {
+								other = append(other, "the bytes read from the source at "+p.InstrPos(x)+" are not written to the response as they are")
+							}
 						} else if x.Call.IsInvoke() && x.Call.Method.Name() == "Close" {
 						} else if g := eng.StaticCallee(x.Common()); g != nil && eng.InModule(g) && len(g.Blocks) > 0 && g.Parent() == nil && len(seen) < 200 {
 							// a helper of the handler package that streams the reader: its
